@@ -326,7 +326,7 @@ META_EXTRA = "ENGAGE (optional from optional: target ends in the source's engage
 META = (META[0] + " " + META_EXTRA, META[1])
 META = (META[0] + ' SIB (cv/ref-qualified overloads of one member agree); INITFORM.', META[1])
 
-META = (META[0] + ' REL evaluates optional and variant operators over a fourth element outcome, unordered (only != holds), because their operators are specified element-wise; TYPEDFUN (a comparison functor fixed to one template parameter is never applied to an operand declared with another; controls in fixtures/arith_pos.hpp).', META[1])
+META = (META[0] + ' REL evaluates optional and variant operators over a fourth element outcome, unordered (only != holds), because their operators are specified element-wise; TYPEDFUN (a comparison functor fixed to one template parameter is never applied to an operand declared with another; controls in fixtures/arith_pos.hpp); CONSTR (the requires-clause of optional::operator=(U&&), parsed as a boolean formula over the five standard atoms, implies the formula of [optional.assign]).', META[1])
 
 
 def run(chk, tier):
@@ -342,6 +342,7 @@ def run(chk, tier):
     if _ITY.typed_functor_area(chk, db, ["_optional/", "_variant/", "_expected/"]) < 10:      # TYPEDFUN
         chk.analysis_broken("TYPEDFUN: fewer than 10 two-type-parameter templates in optional / variant / expected (floor 10)")
     _ITY.typed_functor_control(chk, D)
+    constr_rule(chk, db)
     nrel = rel.check(chk, db, ["_optional/optional.hpp", "_variant/variant.hpp", "_expected/unexpected.hpp"])
     if chk.rule_instances.get("REL", 0) < 22:      # operators found (an unmodelled body is UNKNOWN, not a lost subject)
         chk.analysis_broken("REL: only %d optional/variant operators modelled (floor 22)" % nrel)
@@ -364,3 +365,147 @@ def run(chk, tier):
         "values held after sequences of assignments are run-time values (e.g. variant::operator=(T&&) always destroying and "
         "re-constructing) and are not decided; lifecycle is property C03",
     ]
+
+
+# ---- CONSTR: the constraint of optional::operator=(U&&) implies the standard's -----------------------------------------------
+CONSTR_ATOMS = [
+    (re.compile(r"^(etl::)?is_scalar(_v)?<T>(::value)?$"), "S"),
+    (re.compile(r"^(etl::)?is_same(_v)?<T,(etl::)?(decay_t|remove_cvref_t)<U>>(::value)?$"), "E"),
+    (re.compile(r"^(etl::)?is_same(_v)?<(etl::)?(decay_t|remove_cvref_t)<U>,T>(::value)?$"), "E"),
+    (re.compile(r"^(etl::)?is_same(_v)?<optional(<T>)?,(etl::)?(decay_t|remove_cvref_t)<U>>(::value)?$"), "O"),
+    (re.compile(r"^(etl::)?is_same(_v)?<(etl::)?(decay_t|remove_cvref_t)<U>,optional(<T>)?>(::value)?$"), "O"),
+    (re.compile(r"^(etl::)?is_constructible(_v)?<T,U>(::value)?$"), "C"),
+    (re.compile(r"^(etl::)?is_assignable(_v)?<T&,U>(::value)?$"), "A"),
+]
+
+
+def _parse_constraint(text):
+    """boolean formula over atom texts: ('and', a, b) | ('or', a, b) | ('not', a) | ('atom', text); None if not parsed"""
+    toks = re.findall(r"\(|\)|&&|\|\||!|\band\b|\bor\b|\bnot\b|[^\s()!&|]+(?:\s*<[^()]*?>)?(?:::value)?|\S", text)
+    # re-join template argument lists that contain spaces / nested brackets: tokenise by hand instead
+    toks = []
+    i, n = 0, len(text)
+    while i < n:
+        ch = text[i]
+        if ch.isspace():
+            i += 1
+        elif ch in "()":
+            toks.append(ch)
+            i += 1
+        elif text.startswith("&&", i) or text.startswith("||", i):
+            toks.append(text[i:i + 2])
+            i += 2
+        elif ch == "!":
+            toks.append("!")
+            i += 1
+        else:
+            j, depth = i, 0
+            while j < n and (depth > 0 or not (text[j].isspace() or text[j] in "()!" or text.startswith("&&", j) or text.startswith("||", j))):
+                if text[j] == "<":
+                    depth += 1
+                elif text[j] == ">":
+                    depth -= 1
+                j += 1
+            w = text[i:j]
+            toks.append({"and": "&&", "or": "||", "not": "!"}.get(w, w))
+            i = j
+    pos = [0]
+
+    def peek():
+        return toks[pos[0]] if pos[0] < len(toks) else None
+
+    def take():
+        pos[0] += 1
+        return toks[pos[0] - 1]
+
+    def p_or():
+        a = p_and()
+        while peek() == "||":
+            take()
+            a = ("or", a, p_and())
+        return a
+
+    def p_and():
+        a = p_not()
+        while peek() == "&&":
+            take()
+            a = ("and", a, p_not())
+        return a
+
+    def p_not():
+        if peek() == "!":
+            take()
+            return ("not", p_not())
+        if peek() == "(":
+            take()
+            a = p_or()
+            if take() != ")":
+                raise ValueError("unbalanced")
+            return a
+        t = take()
+        if t is None or t in (")", "&&", "||"):
+            raise ValueError("atom expected")
+        return ("atom", re.sub(r"\s+", "", t))
+    try:
+        r = p_or()
+        if pos[0] != len(toks):
+            return None
+        return r
+    except (ValueError, IndexError):
+        return None
+
+
+def constr_rule(chk, db):
+    """[optional.assign]/12: `optional& operator=(U&& v)` takes part in overload resolution only if is_constructible_v<T, U>,
+    is_assignable_v<T&, U>, remove_cvref_t<U> is not optional, and not (T is a scalar and decay_t<U> is T). The last clause is
+    what makes `o = {}` disengage a scalar optional (the braces must not bind to U = T). The member's requires-clause is parsed
+    as a boolean formula over these five atoms; it must *imply* the standard's formula (taking part less often only costs a
+    temporary, taking part where the standard forbids changes which assignment `o = {}` and `o = nullopt`-like calls select)."""
+    fs = [f for f in db.funcs if f.get("record") == "etl::optional" and f["n"] == "operator=" and len(f["params"]) == 1
+          and f["params"][0]["ty"].replace(" ", "") == "U&&"]
+    if not fs:
+        chk.analysis_broken("CONSTR: optional::operator=(U&&) no longer exists")
+        return 0
+    import itertools
+    for f in fs:
+        construct = astx.sig(f)
+        chk.instance("CONSTR")
+        text = f.get("trequires") or f.get("requires") or ""
+        form = _parse_constraint(text) if text else None
+        if form is None:
+            chk.obligation("CONSTR", construct, None)
+            chk.unknown_instance("CONSTR", construct, "requires-clause not recorded or not a boolean formula: %r" % text[:80])
+            continue
+        unknown = []
+
+        def ev(t, env):
+            if t[0] == "atom":
+                for rx, name in CONSTR_ATOMS:
+                    if rx.match(t[1]):
+                        return env[name]
+                unknown.append(t[1])
+                return True
+            if t[0] == "not":
+                return not ev(t[1], env)
+            a, b = ev(t[1], env), ev(t[2], env)
+            return (a and b) if t[0] == "and" else (a or b)
+        witness = None
+        for vals in itertools.product((False, True), repeat=5):
+            env = dict(zip("SEOCA", vals))
+            std = env["C"] and env["A"] and not env["O"] and not (env["S"] and env["E"])
+            if ev(form, env) and not std and witness is None:
+                witness = env
+        if unknown:
+            chk.obligation("CONSTR", construct, None)
+            chk.unknown_instance("CONSTR", construct, "constraint atom(s) outside the table: %s" % sorted(set(unknown))[:3])
+            continue
+        chk.obligation("CONSTR", construct, witness is None, evaluations=32)
+        if witness:
+            names = {"S": "T is a scalar", "E": "decay_t<U> is T", "O": "U is the optional itself", "C": "T is constructible from U",
+                     "A": "T& is assignable from U"}
+            chk.violation("CONSTR", construct, "takes-part-where-std-forbids",
+                          "%s: the requires-clause `%s` admits the overload when %s, where [optional.assign] excludes it (for a scalar "
+                          "T and U = T this makes `o = {}` assign a value-initialised T instead of disengaging)"
+                          % (astx.loc(f), re.sub(r"\s+", " ", text)[:160],
+                             ", ".join(("%s" if v else "not (%s)") % names[k] for k, v in witness.items())), {"where": astx.loc(f)})
+    return len(fs)
